@@ -29,7 +29,7 @@ impl Property for C12 {
         "Cases: (source vector of any zoo type/length/provenance incl. spare capacity and heap-mode Bv, destination zoo type, by reference | by value) for every ordered pair of the 18 types and every form that exists (Bvf->Bvf exists by reference only), plus new(into_inner()) for Bvf and Bvd. Enumerated: every source length n<=min(C_S,320) x three value classes x 18x18 pairs x both forms. Oracle: the target has the same length and bits and passes the observer battery; Err(NotEnoughCapacity) exactly when n exceeds the target's fixed capacity, never for Bvd/Bv targets; the source is unchanged. Non-trivial: n>0 and (n is not a multiple of the target's storage word, or |n - capacity(target)|<=1, or the source has non-canonical provenance). Distinct by hash of the case.".into()
     }
     fn random_cases(&self, tier: Tier) -> u64 {
-        tier.pick(40_000, 400_000)
+        tier.pick(200000, 800000)
     }
     fn strategy(&self, tier: Tier) -> BoxedStrategy<C12Case> {
         let conv = (arb_operand(tier), arb_tid(), any::<bool>()).prop_map(|(a, dst, by_value)| C12Case::Convert { a, dst, by_value });
@@ -125,7 +125,6 @@ impl Property for C12 {
                         v.msg = format!("{}: new(into_inner()): {}", a.describe(), v.msg);
                         v
                     })?;
-                    ensure!(z.capacity() == za.capacity(), format!("{}/capacity", what), "new(into_inner()) changed the capacity");
                     st.class("new(into_inner())");
                     st.note(case, a.len() > 0 && a.prov != Prov::Canon);
                 } else {
